@@ -147,11 +147,12 @@ func (ss *c31Server) begin(prefix string, content []byte, script []c31Beh) {
 func (ss *c31Server) end() []c31Req {
 	ss.mu.Lock()
 	close(ss.done)
+	// from here on late requests count as stale and never touch the WaitGroup
+	ss.prefix = "\x00"
 	ss.mu.Unlock()
 	ss.wg.Wait()
 	ss.mu.Lock()
 	defer ss.mu.Unlock()
-	ss.prefix = "\x00"
 	reqs := ss.reqs
 	ss.reqs = nil
 	return reqs
@@ -251,50 +252,66 @@ func (ss *c31Server) serve(w http.ResponseWriter, r *http.Request) {
 		return
 	}
 
-	body := content[from:]
+	// The body is described as segments so that no large buffer is ever
+	// copied (fresh megabyte allocations are very slow under the race detector).
+	base := content[from:]
 	fault, pos := beh.Fault, beh.Pos
 	if !beh.hasBody() {
 		fault = ""
 	}
+	segs := [][]byte{base}
 	switch fault {
 	case "flip":
-		if len(body) > 0 {
-			p := c31Pos(pos, len(body))
-			if p >= len(body) {
-				p = len(body) - 1
+		if len(base) > 0 {
+			p := c31Pos(pos, len(base))
+			if p >= len(base) {
+				p = len(base) - 1
 			}
-			nb := make([]byte, len(body))
-			copy(nb, body)
-			nb[p] ^= 0xff
-			body = nb
+			segs = [][]byte{base[:p], {base[p] ^ 0xff}, base[p+1:]}
 		}
 	case "extra":
 		k := 1
 		if pos != "1" {
 			k = 100
 		}
-		nb := make([]byte, len(body), len(body)+k)
-		copy(nb, body)
-		for i := 0; i < k; i++ {
-			nb = append(nb, byte(0xA5^i))
+		junk := make([]byte, k)
+		for i := range junk {
+			junk[i] = byte(0xA5 ^ i)
 		}
-		body = nb
+		segs = [][]byte{base, junk}
 	}
-	cut := len(body)
+	bodyLen := 0
+	for _, sg := range segs {
+		bodyLen += len(sg)
+	}
+	cut := bodyLen
 	switch fault {
 	case "cl", "chunk", "reset", "slow":
 		// something must be missing, otherwise the reply is simply complete
-		cut = c31Pos(pos, len(body))
-		if cut >= len(body) && len(body) > 0 {
-			cut = len(body) - 1
+		cut = c31Pos(pos, bodyLen)
+		if cut >= bodyLen && bodyLen > 0 {
+			cut = bodyLen - 1
 		}
 	case "short", "eof":
-		cut = c31Pos(pos, len(body))
-		if cut > len(body) {
-			cut = len(body)
+		cut = c31Pos(pos, bodyLen)
+		if cut > bodyLen {
+			cut = bodyLen
 		}
 	}
-	ss.record(slot, func(q *c31Req) { q.BodyLen = len(body); q.Sent = cut })
+	ss.record(slot, func(q *c31Req) { q.BodyLen = bodyLen; q.Sent = cut })
+	send := func(dst io.Writer) {
+		left := cut
+		for _, sg := range segs {
+			if left <= 0 {
+				return
+			}
+			if len(sg) > left {
+				sg = sg[:left]
+			}
+			dst.Write(sg)
+			left -= len(sg)
+		}
+	}
 
 	h := w.Header()
 	h.Set("Content-Type", "application/octet-stream")
@@ -309,22 +326,22 @@ func (ss *c31Server) serve(w http.ResponseWriter, r *http.Request) {
 
 	switch fault {
 	case "", "flip", "extra":
-		h.Set("Content-Length", strconv.Itoa(len(body)))
+		h.Set("Content-Length", strconv.Itoa(bodyLen))
 		w.WriteHeader(status)
-		w.Write(body)
+		send(w)
 	case "short":
 		h.Set("Content-Length", strconv.Itoa(cut))
 		w.WriteHeader(status)
-		w.Write(body[:cut])
+		send(w)
 	case "cl":
-		h.Set("Content-Length", strconv.Itoa(len(body)))
+		h.Set("Content-Length", strconv.Itoa(bodyLen))
 		w.WriteHeader(status)
-		w.Write(body[:cut])
+		send(w)
 		w.(http.Flusher).Flush()
 		panic(http.ErrAbortHandler)
 	case "chunk":
 		w.WriteHeader(status)
-		w.Write(body[:cut])
+		send(w)
 		w.(http.Flusher).Flush()
 		panic(http.ErrAbortHandler)
 	case "eof":
@@ -338,13 +355,13 @@ func (ss *c31Server) serve(w http.ResponseWriter, r *http.Request) {
 			fmt.Fprintf(bufrw, "Content-Range: %s\r\n", cr)
 		}
 		fmt.Fprintf(bufrw, "Connection: close\r\n\r\n")
-		bufrw.Write(body[:cut])
+		send(bufrw)
 		bufrw.Flush()
 		conn.Close()
 	case "reset":
-		h.Set("Content-Length", strconv.Itoa(len(body)))
+		h.Set("Content-Length", strconv.Itoa(bodyLen))
 		w.WriteHeader(status)
-		w.Write(body[:cut])
+		send(w)
 		w.(http.Flusher).Flush()
 		conn, _, err := w.(http.Hijacker).Hijack()
 		if err != nil {
@@ -355,9 +372,9 @@ func (ss *c31Server) serve(w http.ResponseWriter, r *http.Request) {
 		}
 		conn.Close()
 	case "slow":
-		h.Set("Content-Length", strconv.Itoa(len(body)))
+		h.Set("Content-Length", strconv.Itoa(bodyLen))
 		w.WriteHeader(status)
-		w.Write(body[:cut])
+		send(w)
 		w.(http.Flusher).Flush()
 		// stall: no byte until the client goes away (speed monitor), the
 		// case is over, or a generous cap that only bounds harness run time
